@@ -409,7 +409,13 @@ func (p *parser) parseNotExpression(depth int) ast.Child {
 	var child ast.Child
 	if item := p.peek(); item.Typ == itemParenLeft {
 		p.next() // consume paren
-		child = p.parsePermissionExpressions(itemParenRight, depth-1)
+		group := p.parsePermissionExpressions(itemParenRight, depth-1)
+		if group == nil {
+			// Do not store the nil *SubjectSetRewrite in the interface: the
+			// nil check below would not see it.
+			return nil
+		}
+		child = group
 	} else {
 		child = p.parsePermissionExpression()
 	}
